@@ -179,9 +179,9 @@ pub fn shape_toks() -> Vec<(String, Vec<String>)> {
         ("interface-declarations", "interface Idecl { function _p ( ) external ; function q ( bytes memory data ) external returns ( uint256 ) ; } abstract contract Adecl { function f ( ) external virtual ; constructor ( ) { } modifier m ( ) virtual ; }"),
         ("non-elementary-state-variables", "contract Ne { struct P { uint256 x ; } uint256 [ ] values ; P point ; IERC20 token ; mapping ( address => uint256 ) bal ; function ( ) external cb ; function w ( uint256 [ ] memory v , P memory p , IERC20 k ) public { values = v ; point = p ; token = k ; } }"),
         ("typeinfo-in-constructor", "interface Itf { function f ( ) external ; } contract Ti { bytes4 id ; uint256 top ; constructor ( ) { id = type ( Itf ) . interfaceId ; top = type ( uint256 ) . max ; } }"),
-        ("value-types-and-operators", "type Price is uint128 ; using { padd as + } for Price global ; function padd ( Price a , Price b ) pure returns ( Price ) { return a ; } struct Order { Price bid ; uint256 amount ; Price ask ; } contract Book { Price a ; uint256 b ; Price c ; }"),
+        ("value-types-and-operators", "type Price is uint128 ; using { padd } for Price global ; function padd ( Price a , Price b ) pure returns ( Price ) { return a ; } struct Order { Price bid ; uint256 amount ; Price ask ; } contract Book { Price a ; uint256 b ; Price c ; }"),
         ("file-level-only", "struct Lone { uint128 a ; uint256 b ; uint128 c ; } uint256 constant K = 7 * 2 ; function lone ( uint256 [ ] memory p , uint256 q ) pure returns ( uint256 ) { return p [ 0 ] / q * 4 + q ++ ; } error Failed ( uint256 a ) ; enum Kind { A , B }"),
-        ("named-mapping-keys-and-imports", "import { A as B } from \"./x.sol\" ; import * as X from \"./y.sol\" ; contract Nm is B { mapping ( address owner => mapping ( uint256 id => bool ok ) ) public flags ; }"),
+        ("nested-mapping-and-imports", "import { A as B } from \"./x.sol\" ; import * as X from \"./y.sol\" ; contract Nm is B { mapping ( address => mapping ( uint256 => bool ) ) public flags ; }"),
     ] {
         v.push((format!("scale:{}", nm), toks(&format!("pragma solidity 0.8.19 ; {}", t))));
     }
